@@ -3582,17 +3582,19 @@ namespace regex
         constexpr bool match(match_options opts, const Buffer& buf, Stream& s) const
         {
             auto res = dfa_match(sm, opts, source_point{}, buf.begin(), buf.end(), s);
-            auto end = buf.begin() + res.len;
-            if (res.term_idx == 0 && end == buf.end())
-                return true;
-            else
+            if (res.term_idx != 0)
             {
-                if (res.term_idx == 0)
-                    s << "Leftover text after recognition: " << buf.get_view(end, buf.end()) << "\n";
+                if (buf.begin() == buf.end())
+                    s << "Unexpected end of text\n";
                 else
-                    s << "Unexpected char: " << utils::c_names.name(*end) << "\n";
+                    s << "Unexpected char: " << utils::c_names.name(*buf.begin()) << "\n";
                 return false;
             }
+            auto end = buf.begin() + res.len;
+            if (end == buf.end())
+                return true;
+            s << "Leftover text after recognition: " << buf.get_view(end, buf.end()) << "\n";
+            return false;
         }
 
         template<typename Stream>
